@@ -370,7 +370,11 @@ pub fn gen_op<H: HX>(rng: &mut Rng, q: &AnyQ<H>, pf: &Profile) -> Op {
                 }
                 Op::Eq(xs)
             }
-            "clone" => if rng.chance(1, 2) { Op::CloneSwap } else { Op::CloneCheck },
+            "clone" => match rng.below(3) {
+                0 => Op::CloneSwap,
+                1 => Op::CloneCheck,
+                _ => { let n = rng.below(4); Op::CloneFrom(rng.below(len + 2), gen_pairs(rng, q, pf, n)) }
+            },
             "fresh" => Op::Fresh(rng.below(7) as u8, *rng.pick(&[0u64, 0, 1, 5, 64])),
             "dbg" => Op::Dbg,
             "deser_unit" => Op::DeserUnit,
@@ -749,6 +753,41 @@ pub fn large_stream<H: HX>(sink: &mut Sink, rng: &mut Rng, kinds: &[Kind], sizes
 
 
 /// table well-formedness as the crate's unchecked accesses need it
+/// C17 under memory pressure: the address space of this process is limited, then `try_reserve` / `try_reserve_exact` are
+/// called with amounts around the limit, so that each of the three internal reservations (map, heap table, slot table)
+/// is the one that fails for some amount.  Whatever fails, the call must answer `Err` (or `Ok` with enough capacity) and
+/// leave the queue as it was.
+pub fn oom_stream<H: HX>(sink: &mut Sink, rng: &mut Rng, kinds: &[Kind]) -> serde_json::Value {
+    #[repr(C)]
+    struct RLimit { cur: u64, max: u64 }
+    extern "C" { fn setrlimit(resource: i32, rlim: *const RLimit) -> i32; }
+    const RLIMIT_AS: i32 = 9;
+    let limit: u64 = 1 << 31;
+    let rc = unsafe { setrlimit(RLIMIT_AS, &RLimit { cur: limit, max: limit }) };
+    let mut errs = 0u64;
+    let mut oks = 0u64;
+    for (c, kind) in kinds.iter().enumerate() {
+        for exact in [false, true] {
+            if !sink.case(*kind) { continue; }
+            let mut q: AnyQ<H> = AnyQ::new(*kind);
+            let xs: Vec<E> = (0..(5 + c as u64)).map(|k| (k, 0, rng.below(9) as i64)).collect();
+            if !sink.step(&mut q, &Op::FromVec(xs), Lookup::Owned) { continue; }
+            // per element: map entry 48 bytes + index table ~9..18 bytes, heap 8, slot table 8
+            let mut n = limit / 160;
+            while n < limit / 30 {
+                let before = sink.ops;
+                // every call on the same small queue: a successful reservation is given back by shrink_to_fit
+                if !sink.step(&mut q, &Op::TryReserveOom(exact, n), Lookup::Owned) { break; }
+                let _ = before;
+                if !sink.step(&mut q, &Op::ShrinkToFit, Lookup::Owned) { break; }
+                n += n / 16 + rng.below(1 << 12);
+            }
+            let _ = (&mut errs, &mut oks);
+        }
+    }
+    serde_json::json!({"rlimit_as": limit, "setrlimit_rc": rc})
+}
+
 pub fn wf_of<H: HX>(q: &AnyQ<H>) -> bool {
     // after a panic inside IndexMap's own `retain` even reading the lengths can trip IndexMap's debug assertions
     let snap = catch_unwind(AssertUnwindSafe(|| match q {
@@ -773,7 +812,7 @@ pub fn wf_of<H: HX>(q: &AnyQ<H>) -> bool {
 /// operations whose sift-up (or predicate loop) can be interrupted between table updates: the post-crash state of
 /// these is known not to be well-formed on the unchanged tree (KNOWN_FINDINGS.json, property C10)
 pub fn crash_key(kind: Kind, op: &Op, cmp: u8) -> String {
-    format!("{}.{}/{}", kind.name(), op.name(), match cmp { 1 => "cmp", 0 => "cb", _ => "hk" })
+    format!("{}.{}/{}", kind.name(), op.name(), match cmp { 1 => "cmp", 0 => "cb", 3 => "cl", _ => "hk" })
 }
 
 /// C10: for reachable states, every operation, every index k of the user callback that panics: state after
@@ -834,6 +873,7 @@ pub fn crash_stream<H: HX>(sink: &mut Sink, rng: &mut Rng, kinds: &[Kind], ncase
             Op::Extend { lo: ns, hi: Some(ns), xs: small.clone() },
             Op::FromVec(big.clone()), Op::FromIter { lo: nb, hi: Some(nb), xs: big.clone() }, Op::Append(0, small.clone()), Op::Append(300, big.clone()),
             Op::Convert, Op::SerdeRt(kind.other()),
+            Op::CloneSwap, Op::CloneFrom(r.below(len + 1), small.clone()), Op::CloneFrom(0, vec![]), Op::CloneFrom(len / 2, big.clone()),
         ];
         if pq {
             cands.extend([Op::Pop, Op::PopIf(0, w, true), Op::PopIf(0, w, false), Op::IntoSortedVec]);
@@ -842,13 +882,14 @@ pub fn crash_stream<H: HX>(sink: &mut Sink, rng: &mut Rng, kinds: &[Kind], ncase
         }
         let op = r.pick(&cands).clone();
         // how many comparisons / callbacks does it perform without a fault?
-        let (kc, kb, kh) = {
+        let (kc, kb, kh, kl) = {
             let mut q = qtmp.clone_q();
             let c0 = cmp_count();
             let b0 = CBCOUNT.with(|c| c.get());
             let h0 = HKCOUNT.with(|c| c.get());
+            let l0 = CLCOUNT.with(|c| c.get());
             let _ = std::panic::catch_unwind(AssertUnwindSafe(|| apply(&mut q, &op, Lookup::Owned)));
-            (cmp_count() - c0, CBCOUNT.with(|c| c.get()) - b0, HKCOUNT.with(|c| c.get()) - h0)
+            (cmp_count() - c0, CBCOUNT.with(|c| c.get()) - b0, HKCOUNT.with(|c| c.get()) - h0, CLCOUNT.with(|c| c.get()) - l0)
         };
         drop(qtmp);
         let mut plans: Vec<(u8, u64)> = vec![];
@@ -857,6 +898,11 @@ pub fn crash_stream<H: HX>(sink: &mut Sink, rng: &mut Rng, kinds: &[Kind], ncase
         for k in 1..=kb.min(max_k) { plans.push((0, k)); }
         for k in 1..=kh.min(max_k) { plans.push((2, k)); }
         if kh > max_k { plans.push((2, kh)); plans.push((2, r.range(max_k, kh))); }
+        // `Clone` panics: only for the operations that clone on behalf of the caller
+        if matches!(op, Op::CloneSwap | Op::CloneFrom(..)) {
+            for k in 1..=kl.min(max_k) { plans.push((3, k)); }
+            if kl > max_k { plans.push((3, kl)); plans.push((3, r.range(max_k, kl))); }
+        }
         if matches!(op, Op::IterMut { forget: true, .. } | Op::Drain { forget: true, .. }) { plans.push((0, u64::MAX)); } // leak, no panic
         for (cmp, k) in plans {
             if sink.full() { break; }
